@@ -949,6 +949,9 @@ class Enforcer:
         reloaded, data = _cache_handler.read_cached_file(
             self._file_cache, path, force_reload=force_reload)
         if reloaded or not self.rules:
+            # read_cached_file() hands back an empty dict when the file has
+            # disappeared; treat that like an empty policy file
+            data = data or ''
             rules = Rules.load(data, self.default_rule)
             self.set_rules(rules, overwrite=overwrite, use_conf=True)
             rules_changed = True
